@@ -187,6 +187,8 @@ class Importance(CellModifierInput):
             if other != particle
         ):
             tree = copy.deepcopy(tree)
+            # the comments stay with the entry this one was copied from: they are written once
+            _drop_comments(tree)
             self._particle_importances[particle] = tree
         tree["data"][0].value = value
 
@@ -405,6 +407,36 @@ class Importance(CellModifierInput):
 
     def _update_cell_values(self):
         pass
+
+
+def _drop_comments(tree):
+    """
+    Removes the comments (each with the line break that ends it) from the paddings of an importance entry.
+
+    :param tree: the entry, a copy of another one that keeps the comments.
+    :type tree: SyntaxNode
+    """
+    parts = [tree["classifier"], tree["seperator"]] + list(tree["data"].nodes)
+    for part in parts:
+        # with blanks for a separator (imp:n 1) the separator is the padding itself
+        if isinstance(part, syntax_node.PaddingNode):
+            padding = part
+        else:
+            padding = getattr(part, "padding", None)
+        if padding is None:
+            continue
+        kept = []
+        skip_break = False
+        for node in padding.nodes:
+            if isinstance(node, syntax_node.CommentNode):
+                skip_break = True
+                continue
+            if skip_break and isinstance(node, str) and node == "\n":
+                skip_break = False
+                continue
+            skip_break = False
+            kept.append(node)
+        padding._nodes = kept
 
 
 def _generate_default_data_tree(particle):
